@@ -49,6 +49,19 @@ uint32_t get_bit(uint32_t value) {
     return round(log2(value));
 }
 
+// Finds where the present flags (there's one more set as long as the
+// ext bit is on) end. The parser has already checked that they're all there.
+size_t find_flags_end(const vector<uint8_t>& buffer) {
+    size_t offset = 0;
+    uint32_t flags;
+    do {
+        memcpy(&flags, &buffer[offset], sizeof(flags));
+        offset += sizeof(flags);
+    } while ((Endian::le_to_host(flags) & 0x80000000u) != 0 &&
+             offset + sizeof(flags) <= buffer.size());
+    return offset;
+}
+
 RadioTapWriter::RadioTapWriter(vector<uint8_t>& buffer)
 : buffer_(buffer) {
 }
@@ -61,8 +74,12 @@ void RadioTapWriter::write_option(const RadioTap::option& option) {
     const bool is_empty = buffer_.empty();
     RadioTapParser parser(buffer_);
     const uint8_t* candidate_ptr = parser.current_option_ptr();
+    if (parser.has_fields() && parser.current_namespace_index() != 0) {
+        // The first namespace has no fields: the new one goes right after the flags
+        candidate_ptr = &*buffer_.begin() + find_flags_end(buffer_);
+    }
     // Loop while we find lower fields and we're still in the first namespace
-    while (parser.has_fields()) {
+    while (parser.has_fields() && parser.current_namespace_index() == 0) {
         if (parser.current_field() > option.option()) {
             break;
         }
